@@ -115,6 +115,19 @@ theorem offer_same_version_noop (s : State R) (r : R) (e : Entry R) (deps : List
     (hc : s.cache r = some e) : offer s r e.version deps = s := by
   simp [offer, hc]
 
+/-- **Latest offer wins, whatever the monitors do** (the cache's C15 clause in the presence of
+    background re-preparation): in every state reached by any interleaving of offers, deletes
+    and monitor steps, the version and declared dependencies the cache shows for each resource
+    are exactly those of the last effective offer (`track` is a plain map that follows offers
+    and deletes and ignores monitor steps) — a re-preparation never resurrects an older version
+    or spec, and never brings a deleted entry back. No rank hypothesis is needed. -/
+theorem cache_shows_last_offer (acts : List (Action R)) :
+    view (run (init : State R) acts) = acts.foldl track (fun _ => none) := by
+  rw [view_run]; rfl
+
+/-- in particular a monitor step never changes what is cached for whom -/
+theorem monitor_step_keeps_versions (s : State R) (r : R) : view (bg s r) = view s := view_bg s r
+
 /-- the subscription graph always respects the rank, so it is acyclic and the registry's cycle
     check (C17) never refuses a subscription issued by the cache -/
 theorem subscriptions_ranked {rank : R → Nat} {s : State R} (h : Reachable rank s) :
